@@ -1596,7 +1596,7 @@ func generateScenarios(prop string, seed uint64, n int, adv bool) []*scenario {
 			out = append(out, sc)
 		case prop == "C11" && i%4 != 0:
 			out = append(out, g.statusy(i, s))
-		case prop == "C07":
+		case prop == "C07" && i%4 != 3 && i%8 != 1:
 			out = append(out, g.rollout(i, s, i%3 == 0))
 		case (prop == "C08" && i%4 == 1) || (prop == "C07" && i%8 == 1):
 			// two rolling child kinds with the same kind name, told apart by their API group only
@@ -1614,7 +1614,8 @@ func generateScenarios(prop string, seed uint64, n int, adv bool) []*scenario {
 				sc = g.rolloutFinalize(i, s)
 			}
 			out = append(out, sc)
-		case prop == "C09":
+		case prop == "C09" || (prop == "C07" && i%4 == 3):
+			// (C07 too: after a failed or unseen revision write a child may be recorded by two revisions)
 			sc := g.rollout(i, s, true)
 			for tries := 0; tries < 20 && (sc.Ctl.GenSelector || !sc.Ctl.ParentNamespaced); tries++ {
 				sc = g.rollout(i, s, true) // configurations with a known rollout finding (D27, D28) belong to C08
